@@ -488,6 +488,67 @@ func TestVerifC05(t *testing.T) {
 		}(j)
 	}
 	wg.Wait()
+	// ---------- Part 2b: fault sequences: after a burst of faults of one kind, a healthy fetch must still work (nothing may be used up) ----------
+	burstKinds := []string{"refused", "non-tls-peer", "pre-handshake-stall", "cut-mid-body", "post-handshake-stall", "status-garbage"}
+	for bi, kind := range burstKinds {
+		n := 1<<21 + bi
+		if !c.Mine(n) || !c.Begin(n, "burst of "+kind) {
+			continue
+		}
+		const burst = 14
+		var bw sync.WaitGroup
+		for k := 0; k < burst; k++ {
+			var u string
+			serial++
+			switch kind {
+			case "refused":
+				l, _ := net.Listen("tcp4", "127.0.0.1:0")
+				p := l.Addr().(*net.TCPAddr).Port
+				l.Close()
+				u = fmt.Sprintf("https://127.0.0.1:%d/refused-burst-%d", p, serial)
+			case "non-tls-peer":
+				u = fmt.Sprintf("https://%s/plain-burst-%d-%d", s.CanaryHost(2), c.R.Shard, serial)
+			case "pre-handshake-stall":
+				u = fmt.Sprintf("https://127.0.0.9:%d/never-burst-%d-%d", s.Port, c.R.Shard, serial)
+			default:
+				u, _ = install(corpus[0], 0, func(h hop) sim.Plan {
+					p := sim.Respond([]byte(h.raw))
+					switch kind {
+					case "cut-mid-body":
+						p.CutAt, p.Close = len(h.raw)-12, "fin"
+					case "post-handshake-stall":
+						return sim.Plan{StallStage: "post-handshake", HoldMax: 45 * time.Second}
+					case "status-garbage":
+						p = sim.Respond([]byte("garbage\n"))
+					}
+					return p
+				})
+			}
+			bw.Add(1)
+			go func(u string) {
+				defer bw.Done()
+				o := fetch(u, "client.FetchURL", 1)
+				jmu.Lock()
+				judge(fault{Chain: "-", Kind: "burst:" + kind, Via: "client.FetchURL"}, o, 1, false, "")
+				jmu.Unlock()
+			}(u)
+		}
+		bw.Wait()
+		healthy, hops := install(corpus[0], -1, func(h hop) sim.Plan { return sim.Respond([]byte(h.raw)) })
+		o := fetch(healthy, "client.FetchURL", hops)
+		f := fault{Chain: corpus[0].name, Kind: "healthy-after-burst:" + kind, Via: "client.FetchURL"}
+		switch {
+		case o.hung:
+			c.Violation("fault:hang:after-burst:"+kind, fmt.Sprintf("after %d %s faults a fetch from a healthy server was still running after %v", burst, kind, o.elapsed.Round(time.Millisecond)), f)
+		case o.err != nil:
+			c.Violation("fault:healthy-fetch-fails-after-burst:"+kind, fmt.Sprintf("after %d %s faults a fetch from a healthy server fails: %v", burst, kind, o.err), f)
+		case o.elapsed > perHop:
+			c.Violation("fault:late:after-burst:"+kind, fmt.Sprintf("after %d %s faults a healthy fetch took %v", burst, kind, o.elapsed.Round(time.Millisecond)), f)
+		default:
+			c.Count("healthy_fetches_after_bursts", 1)
+		}
+		c.NontrivialEnumerated()
+	}
 	// ---------- Part 3: the same faults seen from the UI: the loading screen must give way to an error item in time, and keys must still be handled ----------
 	uiFaults := []struct {
 		kind string
